@@ -13,6 +13,10 @@ Families
   cont3d   object in a BoxRegion / MeshVolumeRegion inside a box workspace
   rh       two objects on a PolygonalVectorField; every `require` form bounding
            `relative heading of` and `distance to` (and neighbours the matcher must ignore)
+  rh3      three objects on the field: relative-heading requirement between A and T x distance
+           bound to T / to a third object N / to both with different constants / stated from
+           N's side / owned by T / from visibility of N, N fixed, in its own region or on the
+           field; two relative-heading requirements on A with different targets
   vis      `visible`, `visible from`, `requireVisible`, `not visible`, visibleDistance
            alphabet (incl. < 1), view cones, a second object as observer
   mode2d   the same constructs in 2D compatibility mode
@@ -463,6 +467,114 @@ def rh_programs():
 
 
 # ------------------------------------------------------------------------------------------
+# rh3: three objects, relations of one kind pointing at different targets
+# ------------------------------------------------------------------------------------------
+# A (the ego of the requirements) and `other` (T) are bound by a relative-heading requirement;
+# a distance bound may exist to T, to a third object N, to both (different constants), be
+# stated from N's side, be owned by T, or come from visibility of N.  The cells whose headings
+# satisfy the relative-heading requirement are 20 m apart: a bound that belongs to another
+# object (15: nothing survives, 25: half of the cell survives) would cut feasible positions.
+LAYOUTS3 = {
+    "far2": [("[0@0, 10@0, 10@10, 0@10]", "0"), ("[30@0, 40@0, 40@10, 30@10]", "90 deg")],
+    "far3": [("[0@0, 10@0, 10@10, 0@10]", "0"), ("[30@0, 40@0, 40@10, 30@10]", "90 deg"), ("[70@0, 80@0, 80@10, 70@10]", "0")],
+}
+# RH form -> (require text, x of the cell A ends up in, x of the cell `other` ends up in)
+RH3_FORMS = {
+    "Q>=c": (f"require {Q} >= 60 deg", 5, 35),
+    "abs(Q-a)<=d": (f"require abs({Q} - 90 deg) <= 20 deg", 5, 35),
+    "Q<=c": (f"require {Q} <= -60 deg", 35, 5),
+}
+BOUNDS3 = ("T", "N", "T+N", "N+T", "N-rev", "N-vis", "T+N-vis", "N-visfrom", "T-owner")
+THIRDS = ("fixed", "small", "field")
+
+
+def rh3(layout, rhform, bound, d, third, two_rh=False, quick=False):
+    cells = LAYOUTS3[layout]
+    rhtext, xa, xo = RH3_FORMS[rhform]
+    lines = [f"r{k} = PolygonalRegion({pts})" for k, (pts, _h) in enumerate(cells)]
+    lines.append('vf = PolygonalVectorField("F", [' + ", ".join(f"[r{k}.polygons, {h}]" for k, (_p, h) in enumerate(cells)) + "])")
+    lines.append("union = " + "r0" + "".join(f".union(r{k})" for k in range(1, len(cells))))
+    vis = bound in ("N-vis", "T+N-vis", "N-visfrom")
+    lines.append("A = new Object " + _join("in union", "facing vf", ("with visibleDistance 14, " + RAYS) if vis else ""))
+    lines.append("ego = A")
+    lines.append("other = new Object in union, facing vf")
+    xn = xo if bound == "T-owner" else xa  # N sits next to the object that owns the bound
+    nvis = {"N-vis": "with requireVisible True", "T+N-vis": "with requireVisible True", "N-visfrom": "visible from ego"}.get(bound, "")
+    if third == "fixed":
+        lines.append("third = new Object " + _join(f"at ({xn}, 13, 0)", nvis))
+    elif third == "small":
+        lines.append(f"r9 = PolygonalRegion([{xn - 3}@12, {xn + 3}@12, {xn + 3}@15, {xn - 3}@15])")
+        lines.append("third = new Object " + _join("in r9", nvis))
+    else:
+        lines.append("third = new Object " + _join("in union", "facing vf", nvis))
+    lines.append(rhtext)
+    if two_rh:
+        lines.append("require abs(relative heading of third) <= 30 deg")
+    dT = f"require {D} <= 45"
+    dN = f"require (distance to third) <= {d}"
+    if bound == "T":
+        lines.append(dT)
+    elif bound == "N":
+        lines.append(dN)
+    elif bound == "T+N":
+        lines += [dT, dN]
+    elif bound == "N+T":
+        lines += [dN, dT]
+    elif bound == "N-rev":
+        lines += ["ego = third", f"require (distance to A) <= {d}", "ego = A"]
+    elif bound == "T+N-vis":
+        lines.append(dT)
+    elif bound == "T-owner":
+        lines += ["ego = other", dN, "ego = A"]
+    cur = dict(layout=layout, rh=rhform, bound=bound, d=d, third=third, two_rh=two_rh)
+    default = dict(layout="far2", rh="Q>=c", bound="N", d=25, third="fixed", two_rh=False)
+    diff = [f"{n}={v}" for n, v in cur.items() if v != default[n]]
+    return {
+        "id": f"rh3:{layout}/rh[{rhform}]/{bound}/d{d}/{third}" + ("/2rh" if two_rh else ""),
+        "family": "rh3",
+        "tag": "rh3[" + (",".join(diff) or "default") + "]",
+        "text": "\n".join(lines) + "\n",
+        "mode2D": False,
+        "dim": 2,
+        "quick": quick,
+    }
+
+
+def rh3_programs():
+    out = {}
+
+    def add(p):
+        if p["id"] in out:
+            out[p["id"]]["quick"] = out[p["id"]]["quick"] or p["quick"]
+        else:
+            out[p["id"]] = p
+
+    # quick: one program per way of owning the bound, both constants, every kind of third object
+    add(rh3("far2", "Q>=c", "N", 25, "fixed", quick=True))
+    add(rh3("far2", "Q>=c", "N", 15, "fixed", quick=True))
+    add(rh3("far2", "Q>=c", "T+N", 25, "small", quick=True))
+    add(rh3("far2", "Q<=c", "T-owner", 25, "fixed", quick=True))
+    add(rh3("far2", "abs(Q-a)<=d", "N-rev", 25, "fixed", quick=True))
+    add(rh3("far2", "Q>=c", "T+N-vis", 25, "fixed", quick=True))
+    add(rh3("far2", "Q>=c", "T+N", 15, "field", two_rh=True, quick=True))
+    # thorough: RH form x owner of the bound x constant, N fixed
+    for f, b, d in itertools.product(RH3_FORMS, BOUNDS3, (15, 25)):
+        if b in ("T", "N-vis", "T+N-vis", "N-visfrom") and d == 15:
+            continue  # the constant does not occur in these
+        add(rh3("far2", f, b, d, "fixed"))
+    # N positioned in its own small region / on the field; second heading-0 cell far away
+    for b, d in itertools.product(BOUNDS3, (15, 25)):
+        if b in ("T", "N-vis", "T+N-vis", "N-visfrom") and d == 15:
+            continue
+        add(rh3("far2", "Q>=c", b, d, "small"))
+        add(rh3("far3", "Q>=c", b, d, "fixed"))
+    for b in ("N", "T+N", "N+T", "N-rev", "T-owner"):
+        add(rh3("far2", "Q>=c", b, 25, "field"))
+        add(rh3("far2", "Q>=c", b, 15, "field", two_rh=True))
+    return list(out.values())
+
+
+# ------------------------------------------------------------------------------------------
 # vis
 # ------------------------------------------------------------------------------------------
 VIS_CONSTRUCTS = {
@@ -639,7 +751,7 @@ def mode2d_programs():
 
 
 def all_programs():
-    progs = cont2d_programs() + cont3d_programs() + rh_programs() + vis_programs() + mode2d_programs()
+    progs = cont2d_programs() + cont3d_programs() + rh_programs() + rh3_programs() + vis_programs() + mode2d_programs()
     ids = [p["id"] for p in progs]
     if len(set(ids)) != len(ids):
         raise RuntimeError("duplicate program ids")
